@@ -308,7 +308,9 @@ def vivo_trace(tid, rec_events, raw, cfg, mode, check, unit=1e-3, completed=True
                 not (isinstance(e['liq'], float) and math.isnan(e['liq'])):
             vals.add(float(e['liq']))
     rk = {v: i + 1 for i, v in enumerate(sorted(vals))}
-    fee = encode.rat(cfg.get('fee', 0.0))
+    from fractions import Fraction
+    f = Fraction(cfg.get('fee', 0.0)).limit_denominator(10 ** 6)        # the configured rate (0.0005 -> 1/2000)
+    fee = [f.numerator, f.denominator]
 
     def U(x):
         return encode.scaled(float(x), unit)
@@ -365,7 +367,7 @@ def vivo_trace(tid, rec_events, raw, cfg, mode, check, unit=1e-3, completed=True
             liq = e.get('liq')
             has = liq is not None and not (isinstance(liq, float) and math.isnan(liq))
             wal = e.get('acct', {}).get('wallet')
-            out.append({'k': 'liqcheck', 'liq': rk[float(liq)] if has else 0,
+            out.append({'k': 'liqcheck', 'liq': rk[float(liq)] if has else 0, 'liqu': U(liq) if has else 0,
                         'q8': q8_or(e['qty'], 0 if e['qty'] == 0 else 77777777), 'count': int(e['count']),
                         'entry': U(e['entry']) if e['entry'] is not None else 0,
                         'wal': U(wal) if wal is not None else 0})
@@ -658,6 +660,10 @@ def liq_approach(pattern, P0, liq, side, tf=1, tp=None):
         if tf == 1:
             return [(P0, m2, max(P0, liq), min(P0, liq))]
         return [{'mins': [(P0, x, max(P0, x), min(P0, x)), (x, m2, max(x, liq), min(x, liq))] + [(m2, m2, m2, m2)] * (tf - 2)}]
+    if pattern in ('touch_new_not_old', 'touch_old_not_new'):
+        # averaged entry: `liq` is the liquidation price of the averaged entry (new) or of the first fill alone (old),
+        # both computed by the caller with the implementation's own expression; the two differ, the candle reaches one
+        return [cd(P0, (P0 + liq) / 2, liq)]
     if pattern == 'gap_inside_chunk':
         # fast mode, chunk of several minutes: a close->open gap INSIDE the chunk jumps over the liquidation price,
         # no single minute contains it, the chunk's range does
@@ -670,7 +676,7 @@ def liq_approach(pattern, P0, liq, side, tf=1, tp=None):
 
 
 LIQ_PATTERNS = ['touch', 'miss', 'jump', 'close_at', 'miss_then_touch', 'gap_over', 'stay_away', 'touch_then_partial_tp',
-                'gap_inside_chunk', 'open_and_touch_in_same_candle']
+                'gap_inside_chunk', 'open_and_touch_in_same_candle', 'touch_new_not_old', 'touch_old_not_new']
 
 
 def run_liq_case(item):
@@ -709,6 +715,12 @@ def run_liq_case(item):
         # cross / spot: aim at the price an isolated position of this leverage would be liquidated at
         L = p['aim_lev']
         liq = entry * (1 - 1 / L + 0.004) if last['qty'] > 0 else entry * (1 + 1 / L - 0.004)
+    if item['pattern'] in ('touch_new_not_old', 'touch_old_not_new'):
+        # not read from the implementation: the expression of Position.liquidation_price on the logged entry price
+        # (averaged) resp. on the price of the first fill; for a long the old one lies above the new one
+        L = p['aim_lev']
+        e = entry if item['pattern'] == 'touch_new_not_old' else float(p['P0'])
+        liq = e * (1 - 1 / L + 0.004) if last['qty'] > 0 else e * (1 + 1 / L - 0.004)
     if liq <= 0:
         return None, {'exc': None, 'why': 'liquidation price not positive'}
     if p.get('stop_rel') is not None:                     # protective stop: fraction of the way entry -> liq (>1: beyond)
@@ -835,6 +847,7 @@ def liq_price_reads(item):
             s.set_price(SYM, first)
             o = s.order(SYM, 'buy' if side == 1 else 'sell', 'MARKET', 2.0, first)
             o.execute()
+            _ = p.liquidation_price                      # the simulators read it after every minute
             if second is not None:
                 s.set_price(SYM, second)
                 o2 = s.order(SYM, 'buy' if side == 1 else 'sell', 'LIMIT', 1.0, second)
@@ -846,5 +859,6 @@ def liq_price_reads(item):
             unit = 10.0 ** (math.floor(math.log10(e)) - 5)        # 6 significant digits of the entry price
             evs.append({'lev': lev, 'mode': p.mode, 'side': 'long' if side == 1 else 'short', 'hasliq': bool(has),
                         're': rk[e], 'rb': rk[b], 'rl': rk[float(liq)] if has else 0,
-                        'eu': encode.scaled(e, unit), 'bu': encode.scaled(b, unit), 'avg': second is not None})
+                        'eu': encode.scaled(e, unit), 'bu': encode.scaled(b, unit), 'avg': second is not None,
+                        'lu': encode.scaled(float(liq), unit) if has else 0})
     return evs
